@@ -31,6 +31,8 @@ def run(rep, tier):
     rep.rule("R1", "folded table of a referenced version equals CPython's opcode module: opmap, HAVE_ARGUMENT, EXTENDED_ARG, 7 categories")
     rep.rule("R2", "every reachable table: name/number bijection; categorised opcodes defined and operand-taking; hasjrel/hasjabs disjoint; "
                    "EXTENDED_ARG defined, shift 16 (<3.6) / 8 (>=3.6); frozenset views equal the lists at module end")
+    rep.rule("R5", "get_opcode_module(version, variant) hands out the table of that version and flavour (CPython / PyPy), also when the other flavour of the same "
+                   "version was asked for before (evaluated by the folder in one shared module state, each selection twice, interleaved)")
     T = tables()
     rep.floor("opcode table modules folded", len(T.all_tables), 43)
     rep.floor("tables reachable from op_imports", len(T.reachable), 39)
@@ -158,6 +160,31 @@ def run(rep, tier):
         rep.extra["cross_examination"] = {"method": "independent replay of literal def_op/rm_op calls (xv/replay.py)", "modules_agreeing": agree,
                                           "modules_not_replayable": skipped, "notes": {k: v for k, v in notes.items() if v != "replayed"}}
         rep.floor("tables confirmed by the independent replay", agree, 35)
+    # ---------------------------------------------------------------- R5 the table handed out for (version, variant) is that version's table of that flavour, on every call
+    from ..fold import FoldError, ModuleNS, PyExc
+    f_gom = T.F.modules["xdis.op_imports"].ns.get("get_opcode_module")
+    if f_gom is None:
+        raise AnalysisError("anchor vanished: xdis.op_imports.get_opcode_module")
+    have = {}
+    for m in T.reachable.values():
+        have.setdefault(tuple(m.ns["version_tuple"][:2]), set()).add(bool(m.ns.get("is_pypy")))
+    nsel = 0
+    for v in sorted(have):
+        flavours = [(None, False)] + ([("pypy", True)] if True in have[v] else [])
+        if False not in have[v]:
+            flavours = [("pypy", True)]
+        # each flavour is asked for twice, interleaved: a lookup remembered under the wrong key shows as a later answer that differs
+        for variant, want_pypy in flavours + flavours:
+            try:
+                got = T.F.apply(f_gom, [v, variant], {})
+                ok = isinstance(got, ModuleNS) and tuple(got.ns.get("version_tuple", ())[:2]) == v and bool(got.ns.get("is_pypy")) == want_pypy
+                shown = got.name if isinstance(got, ModuleNS) else repr(got)[:60]
+            except (PyExc, FoldError) as e:
+                ok, shown = False, "raises %s" % e
+            nsel += 1
+            rep.ob("R5", "xdis.op_imports.get_opcode_module", "%d.%d:%s" % (v[0], v[1], variant or "CPython"), ok, expected="the %s table of %d.%d" % (variant or "CPython", v[0], v[1]), derived=shown,
+                   msg="get_opcode_module(%r, %r) hands out %s (asked in the order CPython, PyPy, CPython, PyPy for each version)" % (v, variant, shown))
+    rep.floor("(version, flavour) selections evaluated", nsel, 70)
     rep.configurations = len(T.reachable)
     rep.extra["tables"] = sorted(short(m) for m in T.reachable.values())
     rep.extra["reference_versions"] = REF_VERSIONS
